@@ -2,7 +2,7 @@
 import os
 
 from . import core
-from .rules import stdio, cert, mark, exact, optstore, inval, idx, atomic, own, tokens, idxclass, copy, pair, structfree, buf, div, counter, sentinel, appendinit, verdict, basismap, zerotol, escape, lenclass, djsym, ndet, useb4check, norms, opencheck, shell, esolver, errlost, rescan, certdep
+from .rules import stdio, cert, mark, exact, optstore, inval, idx, atomic, own, tokens, idxclass, copy, pair, structfree, buf, div, counter, sentinel, appendinit, verdict, basismap, zerotol, escape, lenclass, djsym, ndet, useb4check, norms, opencheck, shell, esolver, errlost, rescan, certdep, neverset
 from .effects import Effects
 
 FIX = os.path.join(os.path.dirname(os.path.abspath(__file__)), "fixtures")
@@ -492,6 +492,7 @@ PROPS = {
                   lambda prog, tier: idxclass.run(prog),
                   lambda prog, tier: lenclass.run(prog),
                   lambda prog, tier: lenclass.run_capacity(prog),
+                  lambda prog, tier: neverset.run(prog),
                   lambda prog, tier: appendinit.run(prog),
                   lambda prog, tier: counter.run(prog),
                   lambda prog, tier: useb4check.run(prog),
@@ -509,7 +510,8 @@ PROPS = {
                        "row / structural / internal-column spaces; (R-LENCLASS) allocations and block operations on problem arrays use the "
                        "array's own dimension; (R-CAPACITY) an array that some site sizes by a capacity field (rowsize / colsize / structsize) is "
                        "never allocated with only the current count unless the capacity is set to that count alongside (the appending edit "
-                       "functions write slot [count] whenever count < capacity); (R-APPENDINIT) slots appended by the add-row / add-column paths are initialised before the "
+                       "functions write slot [count] whenever count < capacity); (R-NEVERSET) every scalar field of a library record that live "
+                       "code reads is written somewhere in the program (a field that is only read holds allocator garbage); (R-APPENDINIT) slots appended by the add-row / add-column paths are initialised before the "
                        "dimension is published; (R-CNT) basis counters are bounded; (R-NDET) the reproducibility sentence: constant seeds, "
                        "no clock / pid / libc randomness outside the timing wrappers, time reaches a branch only at the documented time "
                        "limit, no relational pointer comparison across objects and no pointer-to-integer value outside the slab allocator.",
